@@ -24,6 +24,9 @@ ASSUMPTIONS = [
     "heuristic and only the end-to-end hits are specified); expected alignment = placeholders right after the token",
     "split tasks: one unparsed chunk of <= 4 pieces whose translated/original lengths straddle the 2-character threshold, "
     "joined by a splitter from the code's own list; the inner parser's outcome per piece is a symbolic bit",
+    "text soups: texts of 2 (thorough: 3) tokens drawn by symbolic choice from a per-language pool (the language's own "
+    "shortest month/weekday/relative/unit words, filler, punctuation, numeric fields with symbolic digits) through the full "
+    "search_dates pipeline, 16 languages",
     "pipeline tasks: sentence templates in several languages with symbolic digits, languages given and autodetected, "
     "with and without RELATIVE_BASE; free text (arbitrary prose, mutated punctuation) is outside: letters are not symbolic",
 ]
@@ -236,6 +239,79 @@ def h_pipeline(name, detect, with_base, add_lang=False, only=None):
     return fn
 
 
+# ------------------------------------------------------------------------------------------------ text soups
+def soup_pool(lang):
+    """words of the language's own vocabulary (shortest first) + filler + punctuation + numeric fields"""
+    info = C.combined_info(lang)
+
+    def pick(keys, n):
+        ws = sorted({w for k in keys for w in info.get(k, []) if isinstance(w, str) and w and not any(c.isdigit() for c in w)},
+                    key=lambda w: (len(w), w))
+        return ws[:n]
+    rel = sorted({w for ws in info.get("relative-type", {}).values() for w in ws if w and not any(c.isdigit() for c in w)},
+                 key=lambda w: (len(w), w))[:2]
+    pool = pick(C.EN_MONTHS, 2) + pick(C.EN_DAYS, 2) + rel + pick(["ago"], 1) + pick(["in"], 1) + pick(["day", "hour"], 2)
+    pool += ["zzqx", ",", ".", ")", "-", "N2", "N4", "N2,", "N4)", "N2:N2", "N2.N2.N4"]
+    out = []
+    for w in pool:
+        if w not in out:
+            out.append(w)
+    return out
+
+
+def h_text_soup(lang, k, first, detect=False):
+    import re as _re
+
+    def fn():
+        n = C.ns()
+        pool = soup_pool(lang)
+        idx = [first]
+        while len(idx) < k:
+            idx.append(core.concretize(C.field("tok%d" % len(idx), 0, len(pool) - 1)))
+        v, parts = {}, []
+        for pos, i in enumerate(idx):
+            if pos:
+                parts.append(" ")
+            j = 0
+            for piece in _re.split(r"(N\d)", pool[i]):
+                if _re.fullmatch(r"N\d", piece):
+                    name = "n%d_%d" % (pos, j)
+                    j += 1
+                    v[name] = C.field(name, 0, 10 ** int(piece[1]) - 1)
+                    parts.append((name, int(piece[1])))
+                elif piece:
+                    parts.append(piece)
+        wit = dict(v)
+        wit.update({"tok%d" % j: i for j, i in enumerate(idx)})
+        text = tmpl(parts, v)
+        st = {"RELATIVE_BASE": dates.SDateTime(2015, 6, 15, 12, 30)}
+        try:
+            res = n.SE.search_dates(text, languages=None if detect else [lang], settings=st)
+        except Exception as e:  # noqa
+            return C.outcome(False, wit, "raised:%s" % type(e).__name__, {"exception": "%s: %s" % (type(e).__name__, e)})
+        if res is None:
+            return C.outcome(True, wit, "none")
+        ok = isinstance(res, list) and len(res) > 0
+        squeeze = lambda x: TStr([i for i in coerce(x).items if not (isinstance(i, str) and i.isspace())])   # noqa
+        hay = squeeze(coerce(text))
+        pos = 0
+        for tup in res:
+            sub, dt = tup[0], tup[1]
+            if not (isinstance(sub, (str, TStr)) and len(squeeze(sub)) > 0 and isinstance(dt, dates.SDateTime)):
+                ok = False
+                break
+            kpos = hay.find(squeeze(sub), pos)
+            if kpos < 0:
+                ok = False
+                break
+            pos = kpos + len(squeeze(sub))
+        return C.outcome(bool(ok), wit, "hits:%d" % len(res))
+    return fn
+
+
+SOUP_LANGS = ["en", "fi", "fr", "de", "ru", "pl", "he", "zh", "ja", "th", "tl", "cs", "vi", "hu", "ar", "es"]
+
+
 # ------------------------------------------------------------------------------------------------ tasks
 LOCALES = ["en", "yue", "zh", "ja", "zh-Hans", "zh-Hant", "th", "vi", "ar", "fr", "fi", "he"]
 
@@ -255,6 +331,13 @@ def tasks(tier, seed):
     for si in range(len(SPLITTERS)):
         for npc in ((2, 3) if quick else (2, 3, 4)):
             add("split:%r:n=%d" % (SPLITTERS[si], npc), "h_split", {"npieces": npc, "splitter_idx": si, "relative_base": bool((si + npc) % 2)})
+    langs = SOUP_LANGS if not quick else [SOUP_LANGS[(seed + 5 * j) % len(SOUP_LANGS)] for j in range(2)]
+    for lang in langs:
+        npool = len(soup_pool(lang))
+        firsts = range(npool) if not quick else [(seed + 3 * j) % npool for j in range(4)]
+        for f in firsts:
+            add("text-soup:%s:k=%d:first=%d" % (lang, 2 if quick else 3, f), "h_text_soup",
+                {"lang": lang, "k": 2 if quick else 3, "first": f}, 100 if quick else 60)
     names = sorted(TEXTS)
     for i, nm in enumerate(names):
         fields = [p[0] for p in TEXTS[nm][0] if not isinstance(p, str)]
@@ -364,6 +447,45 @@ def native_check(spec):
                 break
             pos = k + len(s)
         return {"violates": not ok, "detail": "%s -> substrings %r" % (desc, substrings)}
+    if fn == "h_text_soup":
+        import re as _re
+        pool = soup_pool(a["lang"])
+        idx = [a["first"]]
+        while len(idx) < a["k"]:
+            idx.append(w["tok%d" % len(idx)])
+        parts = []
+        for pos, i in enumerate(idx):
+            if pos:
+                parts.append(" ")
+            j = 0
+            for piece in _re.split(r"(N\d)", pool[i]):
+                if _re.fullmatch(r"N\d", piece):
+                    parts.append(("n%d_%d" % (pos, j), int(piece[1])))
+                    j += 1
+                elif piece:
+                    parts.append(piece)
+        text = render(parts, w)
+        st = {"RELATIVE_BASE": _dt.datetime(2015, 6, 15, 12, 30)}
+        desc = "search_dates(%r, languages=%r, settings=%r)" % (text, [a["lang"]], st)
+        try:
+            res = SE.search_dates(text, languages=None if a.get("detect") else [a["lang"]], settings=st)
+        except Exception as e:  # noqa
+            return {"violates": True, "detail": "%s raised %s: %s" % (desc, type(e).__name__, e)}
+        if res is None:
+            return {"violates": False, "detail": desc + " -> None"}
+        ok = isinstance(res, list) and len(res) > 0
+        sq = lambda x: "".join(x.split())   # noqa
+        pos = 0
+        for tup in res:
+            if not (isinstance(tup[0], str) and sq(tup[0]) and isinstance(tup[1], _dt.datetime)):
+                ok = False
+                break
+            kk = sq(text).find(sq(tup[0]), pos)
+            if kk < 0:
+                ok = False
+                break
+            pos = kk + len(sq(tup[0]))
+        return {"violates": not ok, "detail": "%s -> %r" % (desc, res)}
     # pipeline
     parts, langs = TEXTS[a["name"]]
     if a.get("only"):
